@@ -1,6 +1,7 @@
 (* GENERATED on every check by harness/cmd/routes2coq from internal/api/router.go, read_only.go, v1/routes.go,
    v2/routes.go and the handlers' bodies of the working tree under test. Do not edit. *)
-(* 42 endpoints, 13 of them writers, 5 mounts; ReadOnly gate installed: true *)
+(* 42 endpoints, 13 of them writers, 5 mounts; ReadOnly gate installed by NewRouter: true;
+   module.go hands Config.ReadOnly to NewRouter unchanged: true *)
 From FL Require Import Router.Model.
 Local Open Scope string_scope.
 
